@@ -221,7 +221,7 @@ Proof.
   { intros d. unfold fires. rewrite !andb_true_iff, !negb_true_iff, Z.eqb_neq, Z.leb_le. tauto. }
   intros H. destruct H as [r He Ho Hu Hel | r Hne Ho Hu Hel | r u Hne Ho Hu Hb Hel | r u d Hne Ho Hu Hb Hfi Hel | r k u rs d Hne Ho Hu Hb Hfi Hel];
     split; intros Hx; try congruence;
-    try (destruct Hx as [u' [d' [Hx _]]]; congruence).
+    try (match type of Hx with ex _ => destruct Hx as [u' [d' [Hx _]]]; congruence end).
   - destruct Hx as [u' [d' [Hx [Hb' _]]]]. rewrite Hu in Hx. injection Hx as <-. destruct Hb; congruence.
   - exists u, d. apply Hfires in Hfi. tauto.
   - exfalso. destruct Hx as [u' [d' [Hx [Hb' Hrest]]]]. rewrite Hu in Hx. injection Hx as <-.
